@@ -180,7 +180,9 @@ def binop (op : String) (a b : GV μ) : Option (GV μ) :=
     | .int x, .int y =>
       if op = ">=" then some (.bool (decide (x ≥ y))) else if op = ">" then some (.bool (decide (x > y)))
       else if op = "<=" then some (.bool (decide (x ≤ y))) else if op = "<" then some (.bool (decide (x < y)))
-      else if op = "+" then some (.int (x + y)) else none
+      else if op = "+" then some (.int (x + y))
+      else if op = "-" then (if y ≤ x then some (.int (x - y)) else none)     -- (a negative int is outside the model)
+      else none
     | .f64 x, .f64 y =>
       if op = "*" then some (.f64 (x.mul y)) else if op = "/" then some (.f64 (x.div y))
       else if op = "+" then some (.f64 (x.add y)) else if op = "-" then some (.f64 (x.sub y)) else none
